@@ -131,6 +131,8 @@ def handleSigV4 (op : String) (j : Json) : Except String Json := do
       ("stream_rewind_to", match Gen.s3StreamRewindTo with | some p => jnat p | none => Json.null),
       ("follow_redirects", Json.bool Gen.s3FollowRedirects), ("hook_raises_on_non_2xx", Json.bool Gen.s3HookRaisesOnNon2xx),
       ("max_redirects", jnat Gen.s3MaxRedirects),
+      ("host_header_explicit", Json.bool hostHeaderExplicit),
+      ("sent_headers", Json.arr (Gen.s3SentHeaders.map fun h => Json.arr #[jhex h.1, jnat h.2]).toArray),
       ("shape_flags", Json.mkObj [
         ("signed_strings_are_sent_strings", Json.bool Gen.s3SignedStringsAreSentStrings),
         ("canonical_headers_shape", Json.bool Gen.s3CanonicalHeadersShape),
@@ -151,7 +153,8 @@ def handleSigV4 (op : String) (j : Json) : Except String Json := do
   | "sigv4.host" =>
     let scheme ← getBytes j "scheme"
     let host ← getBytes j "host"
-    pure (Json.mkObj [("host", jhex (httpxHost scheme host)), ("normal", Json.bool (hostIsNormal scheme host))])
+    pure (Json.mkObj [("host", jhex (httpxHost scheme host)), ("normal", Json.bool (hostIsNormal scheme host)),
+      ("explicit", jhex (wireHost true scheme host)), ("wire", jhex (wireHost hostHeaderExplicit scheme host))])
   | "sigv4.list_query" =>
     let pfx ← getBytes j "prefix"
     let tok ← getOptBytes j "token"
